@@ -128,6 +128,64 @@ def CTable.finish (pct : Bool) (t : CTable κ γ Nat) : CTable κ γ (Option F) 
 
 end finish
 
+/-! ### the percentage expression, as it is written in the source
+
+  `_crosstab_numpy` / `_crosstab_df_dask` compute `crosstab_dict[cat] / crosstab_dict[TOTAL_COUNT] * 100`.
+  The per-category counts are NumPy integers of the width of the breaks `_strides` returns (their
+  differences), the totals a float array, `100` a Python literal.  NumPy keeps integer × literal in the
+  integer's own width (it wraps around), true division and anything that touches a float is floating
+  point.  harness/facts_zonal.py translates the expression into a `PExpr` and the width into a number;
+  `PExpr.eval` gives it that meaning: integers wrap to `bits` bits, floats are the exact field. -/
+
+inductive PExpr where
+  | count | total
+  | lit (k : Nat)          -- an integer literal
+  | flit (k : Nat)         -- a float literal with an integral value (`100.0`)
+  | mul (a b : PExpr) | div (a b : PExpr)
+  | unknown                -- a shape the translator does not know
+  deriving Repr, DecidableEq
+
+/-- a NumPy integer of the counts' width, a Python integer literal, or a float -/
+inductive PVal (F : Type) where
+  | int (i : Int) | weak (i : Int) | flt (x : F)
+
+/-- two's-complement wrap-around to `bits` bits -/
+def wrapS (bits : Nat) (i : Int) : Int := Int.bmod i (2 ^ bits)
+
+section pexpr
+variable {F : Type} [Mul F] [Div F] [IntCast F] [Zero F]
+
+def PVal.toF : PVal F → F
+  | .int i => (i : F)
+  | .weak i => (i : F)
+  | .flt x => x
+
+def PExpr.eval (bits : Nat) (n : Int) (t : F) : PExpr → PVal F
+  | .count => .int n
+  | .total => .flt t
+  | .lit k => .weak k
+  | .flit k => .flt ((k : Int) : F)
+  | .unknown => .flt 0
+  | .mul a b =>
+    match a.eval bits n t, b.eval bits n t with
+    | .int x, .int y => .int (wrapS bits (x * y))
+    | .int x, .weak y => .int (wrapS bits (x * y))
+    | .weak x, .int y => .int (wrapS bits (x * y))
+    | .weak x, .weak y => .weak (x * y)
+    | u, v => .flt (u.toF * v.toF)
+  | .div a b => .flt ((a.eval bits n t).toF / (b.eval bits n t).toF)
+
+/-- one entry of the `percentage` table as the source computes it: total 0 was replaced by NaN -/
+def pctCell (e : PExpr) (bits : Nat) (total n : Nat) : Option F :=
+  if total = 0 then none else some (e.eval bits (n : Int) (((total : Nat) : Int) : F)).toF
+
+/-- `CTable.finish` with the percentage taken through the source's expression -/
+def CTable.finishSrc (e : PExpr) (bits : Nat) (pct : Bool) (t : CTable κ γ Nat) : CTable κ γ (Option F) :=
+  { zone := t.zone, cats := t.cats, total := t.total
+    rows := List.zipWith (fun tot r => r.map (fun n => if pct then pctCell e bits tot n else some ((n : Int) : F))) t.total t.rows }
+
+end pexpr
+
 section d3
 variable [LT κ] [DecidableLT κ] [DecidableEq κ] [DecidableEq γ] {ν ρ : Type}
 
